@@ -5,6 +5,7 @@ mod sexp;
 mod fdcase;
 mod prog;
 mod comp;
+mod ucase;
 
 use sexp::Sexp;
 use std::io::{BufRead, Write};
@@ -15,6 +16,7 @@ fn run_case(e: &Sexp) -> String {
     match l[0].atom() {
         "fd" => fdcase::run(&l[1..]),
         "prog" => prog::run(&l[1..]),
+        "unify" => ucase::run_unify(&l[1..]),
         k => panic!("harness: unknown case kind {}", k),
     }
 }
